@@ -8,6 +8,12 @@ def run():
     # 1. the abstract spec satisfies the property (and the named deviation really violates it)
     chk.add_model("SemAbsMC/counting", vlib.model_check("SemAbsMC", "SemAbsMC.cfg", timeout=600))
     chk.add_model("SemAbsMC/sliding", vlib.model_check("SemAbsMC", "SemAbsMC_sliding.cfg", timeout=600))
+    # fine-grained model of counting_semaphore on the internal condition variable
+    for cfg in ("SemImpl.cfg", "SemImpl_big.cfg", "SemImpl_ones.cfg"):
+        chk.add_model("SemImpl/%s" % cfg[:-4], vlib.model_check("SemImplMC", cfg, timeout=600))
+    for cfg in ("SemImpl_dev_loop.cfg", "SemImpl_dev_timed.cfg"):
+        rr = vlib.model_check("SemImplMC", cfg, expect_ok=False, timeout=600)
+        chk.add_model("SemImpl/variant %s (must violate)" % cfg[12:-4], rr, note="violated: %s" % rr["violated"])
     r = vlib.model_check("SemAbsMC", "SemAbsMC_dev.cfg", expect_ok=False, timeout=600)
     chk.add_model("SemAbsMC/deviation TimedAcquireFalseAfterSignal (must violate)", r,
                   note="violated: %s" % r["violated"])
